@@ -26,11 +26,16 @@ Conserves(a, b) == Align(a, b, 1, 1)
 (* C07(c): b is a with nothing changed except inserted closers "}" "]"     *)
 (* "\end{name}" (and the whitespace normalisation C08 permits).            *)
 EndPrefix == <<"\\","e","n","d","{">>
-RECURSIVE CloseBrace(_, _)
-CloseBrace(b, j) == IF j > Len(b) THEN 0 ELSE IF b[j] = "}" THEN j ELSE IF b[j] \in {"{"} THEN 0 ELSE CloseBrace(b, j+1)
+RECURSIVE CloseBrace(_, _, _)
+(* index of the brace closing the group opened just before j (balanced), or 0 *)
+CloseBrace(b, j, depth) == IF j > Len(b) THEN 0
+                           ELSE IF b[j] = "\\" THEN CloseBrace(b, j+2, depth)     \* an escaped character
+                           ELSE IF b[j] = "}" THEN (IF depth = 0 THEN j ELSE CloseBrace(b, j+1, depth-1))
+                           ELSE IF b[j] = "{" THEN CloseBrace(b, j+1, depth+1)
+                           ELSE CloseBrace(b, j+1, depth)
 (* index just after an inserted \end{name} starting at j, or 0 *)
 EndAt(b, j) == IF j + 4 <= Len(b) /\ SubSeq(b, j, j+4) = EndPrefix
-               THEN (LET c == CloseBrace(b, j+5) IN IF c = 0 THEN 0 ELSE c + 1)
+               THEN (LET c == CloseBrace(b, j+5, 0) IN IF c = 0 THEN 0 ELSE c + 1)
                ELSE 0
 RECURSIVE AlignIns(_, _, _, _)
 AlignIns(a, b, i, j) ==
